@@ -6,6 +6,7 @@
 import Walleye.Model.SearchChess
 import Walleye.Model.Time
 import Walleye.Spec.Abs
+import Walleye.Ops
 open Walleye
 
 def hexDigit (n : Nat) : Char := if n < 10 then Char.ofNat (48 + n) else Char.ofNat (87 + n)
@@ -103,7 +104,8 @@ def escape (s : List Char) : String :=
 structure Ctx where
   cur : Pos
   table : DrawTable
-  spec : Option Spec.Position      -- the position according to the SPEC (none: not tracked)
+  spec : Option Spec.Position      -- the position according to the SPEC (none: not tracked / not a legal position)
+  specRaw : Option Spec.Position := none   -- as read by the spec's own FEN reader, legal or not
 
 def H : Hasher := Hasher.real
 
@@ -175,7 +177,7 @@ def doOp (ctx : Ctx) (line : String) : Ctx × String × String :=
     let sp := (Spec.parseFen (String.ofList (trimNewline text))).filter specLegal
     let S := match sp with | some P => specStateStr H P | none => "-"
     (match fromFen H text with
-     | .ok p => ({ cur := p, table := [], spec := sp }, "ok " ++ stateStr p, S)
+     | .ok p => ({ cur := p, table := [], spec := sp, specRaw := Spec.parseFen (String.ofList (trimNewline text)) }, "ok " ++ stateStr p, S)
      | .err e => (ctx, "err " ++ e, S)
      | .panic => (ctx, "panic", S))
   | "gen" =>
@@ -192,7 +194,7 @@ def doOp (ctx : Ctx) (line : String) : Ctx × String × String :=
      | [p] =>
        let sp := ctx.spec.bind fun P => (Spec.parseMove rest).bind fun m =>
          if Spec.legal P m then some (Spec.apply P m) else none
-       ({ ctx with cur := p, spec := sp }, "ok " ++ stateStr p,
+       ({ ctx with cur := p, spec := sp, specRaw := none }, "ok " ++ stateStr p,
         match sp with | some P => specStateStr H P | none => "-")
      | l => (ctx, s!"nomove {l.length}", "-"))
   | "chk" =>
@@ -200,9 +202,11 @@ def doOp (ctx : Ctx) (line : String) : Ctx × String × String :=
     let S := match ctx.spec with
       | some P => b (Spec.inCheck P .white) ++ b (Spec.inCheck P .black)
       | none =>
-        let P := abs ctx.cur
-        if (Spec.kingSquares P .white).length == 1 && (Spec.kingSquares P .black).length == 1
-        then b (Spec.inCheck P .white) ++ b (Spec.inCheck P .black) else "-"
+        match ctx.specRaw with
+        | some P =>
+          if (Spec.kingSquares P .white).length == 1 && (Spec.kingSquares P .black).length == 1
+          then b (Spec.inCheck P .white) ++ b (Spec.inCheck P .black) else "-"
+        | none => "-"
     (ctx, b (isCheck ctx.cur .white) ++ b (isCheck ctx.cur .black), S)
   | "eval" => (ctx, toString (getEvaluation ctx.cur), "-")
   | "mk" =>
@@ -210,7 +214,7 @@ def doOp (ctx : Ctx) (line : String) : Ctx × String × String :=
      | some p =>
        let sp := ctx.spec.bind fun P => (Spec.parseMove rest).bind fun m =>
          if Spec.legal P m then some (Spec.apply P m) else none
-       ({ ctx with cur := p, spec := sp }, "ok " ++ stateStr p,
+       ({ ctx with cur := p, spec := sp, specRaw := none }, "ok " ++ stateStr p,
         match sp with | some P => specStateStr H P | none => "-")
      | none => (ctx, "panic", "-"))
   | "pos" =>
@@ -237,7 +241,7 @@ def doOp (ctx : Ctx) (line : String) : Ctx × String × String :=
            let tbl : DrawTable := uniq.map fun k => (k, keys.count k)
            specStateStr H P ++ " tbl=" ++ tableStr tbl
          | none => "-"
-       ({ cur := p, table := t, spec := sp.map (·.1) }, s!"ok {stateStr p} tbl={tableStr t}", S)
+       ({ cur := p, table := t, spec := sp.map (·.1), specRaw := none }, s!"ok {stateStr p} tbl={tableStr t}", S)
      | none => (ctx, "panic", "-"))
   | "tbl" => (ctx, tableStr ctx.table, "-")
   | "gocmd" =>
@@ -299,4 +303,18 @@ def main (args : List String) : IO Unit := do
     let hin ← IO.getStdin
     let hout ← IO.getStdout
     loop hin hout { cur := startPos, table := [], spec := Spec.parseFen Gen.defaultFen }
-  | _ => IO.eprintln "usage: wvm run"
+  | "genops" :: kind :: seedS :: rest =>
+    let seed := seedS.toNat!
+    let n (i : Nat) (d : Nat) : Nat := (rest.getD i "").toNat?.getD d
+    let perPly := ["gen all", "gen cap", "chk", "eval", "fmt"]
+    let lines : List String := match kind with
+      | "walk" => runG seed (walkOps (n 0 10) (n 1 40) perPly (n 2 4))
+      | "fenpos" => runG seed (fenPosOps (n 0 100) ["gen all", "gen cap", "chk", "eval"])
+      | "castle" => runG seed (castleLattice (n 0 50))
+      | "chk" => runG seed (checkLattice (n 0 100))
+      | "pairs" => pairOps (n 0 1)
+      | "cap" => runG seed (capOps (n 0 50) (n 1 30) (n 2 6))
+      | _ => []
+    let hout ← IO.getStdout
+    for l in lines do hout.putStrLn l
+  | _ => IO.eprintln "usage: wvm run | wvm genops <kind> <seed> [args]"
